@@ -498,6 +498,25 @@ class Check(core.CheckBase):
             state.append(structural.deep_state(list(value), strict_types=True))
         return state
 
+    def _items_for(self, vector):
+        """Items an empty vector of this type may take: bank objects of its item class (or of any class the bank
+        holds when the parameter names a factory function), members of its enumeration."""
+        import enum  # pylint: disable=import-outside-toplevel
+        try:
+            item_class = getattr(vector.get_param(), 'item_class', None)
+        except Exception:  # pylint: disable=broad-except
+            return []
+        if isinstance(item_class, type) and issubclass(item_class, enum.Enum):
+            return list(item_class)[:2]
+        fallback_class = getattr(vector.get_param(), 'fallback_class', None)
+        found, others = [], []
+        for name in sorted(self.bank):
+            for obj, _, _ in self.bank[name][:1]:
+                matches = any(isinstance(kind, type) and isinstance(obj, kind) for kind in (item_class, fallback_class))
+                (found if matches else others).append(obj)
+        # variant item classes are never instantiated themselves: let the vector's own validation decide
+        return [copy.deepcopy(obj) for obj in found[:40] + others]
+
     def _edit_in_place(self, value):
         """Mutate `value` through its own public interface; returns a description or None."""
         from cryptoparser.common.base import ArrayBase  # pylint: disable=import-outside-toplevel
@@ -519,12 +538,13 @@ class Check(core.CheckBase):
                 if items:
                     value.append(items[0])
                     return 'vector.append'
-                for candidate in (0, 1):
+                for candidate in [0, 1] + self._items_for(value):
                     try:
                         value.append(candidate)
                         return 'vector.append'
                     except Exception:  # pylint: disable=broad-except
                         continue
+                self.stats['shared_default_not_editable'] += 1
                 return None
             if attr.has(type(value)):
                 for field in attr.fields(type(value)):
